@@ -65,6 +65,7 @@ type Case struct {
 	RecJ    *RecJ    `json:"recj,omitempty"`    // record: schema and column values as marshalled (for the model)
 	RowsJ   []RowJ   `json:"rowsj,omitempty"`   // rows: the batch, field by field (for the model)
 	Seed    uint64   `json:"seed,omitempty"`    // rows/record: generator seed of the case
+	V1      string   `json:"v1,omitempty"`      // string: the same strings as a version-1 block (hex)
 	CMode   int      `json:"cmode,omitempty"`   // file: chunk-meta-compress-mode the file was written under
 	CMS     *CMSJ    `json:"cms,omitempty"`     // col: the chunk meta as marshalled under chunk-meta-compress-mode = self
 	MF      *MFJ     `json:"mf,omitempty"`      // mfile: expected chunk ranges, real trailer range and meta-index entries
@@ -442,6 +443,39 @@ func runString(c *Case) {
 	}
 	if !ok {
 		c.Oracle = "roundtrip-differs"
+		return
+	}
+	// the same strings in the deprecated version-1 packing (uncompressed container), as an older version stored them:
+	// today's reader must still return exactly the strings
+	if len(offs) > 0 {
+		v1 := encoding.VerifPackStringV1(data, offs)
+		blk := []byte{byte(encoding.VerifConsts()["str_raw"] << 4)}
+		blk = binary.BigEndian.AppendUint32(blk, uint32(len(v1)))
+		blk = binary.BigEndian.AppendUint32(blk, uint32(len(v1)))
+		blk = append(blk, v1...)
+		c.V1 = hex.EncodeToString(blk)
+		var vd []byte
+		var vo []uint32
+		c.Panic = protect(func() {
+			buf := []byte{}
+			o := []uint32{}
+			vd, vo, err = encoding.DecodeStringBlock(blk, &buf, &o, mk())
+		})
+		if c.Panic != "" {
+			c.Oracle, c.Bad = "decode-panic", "version-1 block"
+			return
+		}
+		if err != nil {
+			c.Oracle, c.EncErr, c.Bad = "decode-error", err.Error(), "version-1 block"
+			return
+		}
+		ok = len(vo) == len(offs) && string(vd) == string(data)
+		for i := 0; ok && i < len(offs); i++ {
+			ok = vo[i] == offs[i]
+		}
+		if !ok {
+			c.Oracle, c.Bad = "roundtrip-differs", "version-1 block"
+		}
 	}
 }
 
